@@ -35,7 +35,7 @@ def _side_runs(tier):
     """Laws, deeper model checks, negative controls.  Returns (results, errors)."""
     jobs = [("laws_" + hm, "C01_Laws", f"C01_Laws_{hm}", None) for hm in ("real", "perfect", "collide")]
     jobs += [("model_" + hm, "C01_Gen", f"C01_Gen_model_{hm}", None)
-             for hm in (("real", "perfect", "collide") if tier == "thorough" else ("real", "collide"))]
+             for hm in (("real", "perfect", "collide") if tier == "thorough" else ("real",))]
     jobs += [(c[0], "C01_Gen", f"C01_Gen_{c[0]}", c) for c in CONTROLS]
 
     def one(job):
@@ -115,7 +115,68 @@ def _classify(recs, cases, verdicts, out):
                                 "trees": rec["trees"]})
     if len(seen) != len(recs):
         raise kit.MachineryError(f"C01 judge produced {len(seen)} verdicts for {len(recs)} traces")
+    if len(recs) > 20 and out.skipped > max(5, len(recs) // 50):
+        raise kit.MachineryError(f"C01: {out.skipped} of {len(recs)} traces were not judgeable (SKIP); "
+                                 "the catalogue is built to be inside the model, so the driver or the "
+                                 "implementation under test is broken in a way the check cannot see through")
     return nfail
+
+
+def _corruption_control(recs, wd):
+    """Negative control for the trace specification: take traces the judge accepted,
+    flip one recorded field, the judge must reject each with the expected clause."""
+    import copy
+
+    def find(pred):
+        for r in recs:
+            for n, e in enumerate(r["evs"]):
+                if pred(r, n, e):
+                    return copy.deepcopy(r), n
+        return None, None
+
+    bad = []
+    r, n = find(lambda r, n, e: e["ev"]["op"] == "Eq" and e["r"]["k"] == "ok" and e["ev"]["i"] != e["ev"]["j"])
+    if r:
+        r["evs"][n]["r"]["b"] = 1 - r["evs"][n]["r"]["b"]
+        bad.append((r, "EqIsPyEq"))
+    r, n = find(lambda r, n, e: e["ev"]["op"] == "DictGet" and e["r"]["k"] == "ok" and e["r"]["v"] > 0)
+    if r:
+        r["evs"][n]["r"]["v"] = -1
+        bad.append((r, "DictFindsEqual"))
+    r, n = find(lambda r, n, e: n > 0 and e["r"]["proj"] and e["r"]["proj"][0]["hashed"] == 1
+                and r["evs"][n - 1]["r"]["proj"] and r["evs"][n - 1]["r"]["proj"][0]["hashed"] == 1)
+    if r:
+        r["evs"][n]["r"]["proj"][0]["h"] = {"t": "H", "id": 99}
+        bad.append((r, "HashStable"))
+    r, n = find(lambda r, n, e: len(r["trees"]) >= 2 and len(e["r"]["proj"]) >= 2
+                and e["ev"]["op"] in ("Eq", "Hash", "DictPut") and e["r"]["proj"][0]["tr"] != e["r"]["proj"][1]["tr"])
+    if r:
+        r["evs"][n]["r"]["proj"][0]["tr"] = r["evs"][n]["r"]["proj"][1]["tr"]
+        bad.append((r, "Immutable"))
+    r, n = find(lambda r, n, e: e["ev"]["op"] == "SetAttr" and e["r"]["k"] == "err")
+    if r:
+        r["evs"][n]["r"]["k"] = "ok"
+        r["evs"][n]["r"]["exc"] = ""
+        bad.append((r, "Immutable"))
+    r, n = find(lambda r, n, e: e["ev"]["op"] == "Eq" and e["r"]["b"] == 1 and e["ev"]["i"] != e["ev"]["j"]
+                and all(q["hashed"] == 1 for q in e["r"]["proj"][:2]))
+    if r:
+        r["evs"][n]["r"]["proj"][1]["h"] = {"t": "H", "id": 98}
+        bad.append((r, "HashRespectsEq|HashStable"))
+    for k, (r, _) in enumerate(bad):
+        r["id"] = k
+    shards = kit.write_shards([b[0] for b in bad], wd / "corrupt", "c01bad", 1000)
+    verdicts, st, tr = kit.judge_shards("C01_Judge", "C01_Judge", shards, jvms=1, workers=2)
+    got = {v["id"]: v["v"] for v in verdicts if isinstance(v, dict) and "id" in v}
+    res, errs = [], []
+    for k, (r, want) in enumerate(bad):
+        ok = got.get(k) in want.split("|")
+        res.append({"corruption": want, "verdict": got.get(k), "rejected_as_expected": ok})
+        if not ok:
+            errs.append(f"corrupted trace {k}: expected {want}, judge said {got.get(k)}")
+    if len(bad) < 4:
+        errs.append(f"only {len(bad)} corruptible traces found")
+    return res, errs, st, tr
 
 
 def _nontrivial(case):
@@ -126,17 +187,19 @@ def _nontrivial(case):
 def run(tier, seed, out):
     wd = kit.fresh_workdir("C01")
     t0 = time.time()
-    with cf.ThreadPoolExecutor(max_workers=2) as ex:
+    # -simulate num=N is per worker: 4 workers x N random walks
+    nsim = 75 if tier == "quick" else 2500
+    with cf.ThreadPoolExecutor(max_workers=4) as ex:
+        sim_f = ex.submit(kit.run_tlc, "C01_Gen", "C01_Gen_sim", workers=4, heap="3g",
+                          simulate=f"num={nsim}", depth=14, seed=seed)
+        gen_f = ex.submit(kit.run_tlc, "C01_Gen", f"C01_Gen_{tier}", workers=8, heap="4g")
         side_f = ex.submit(_side_runs, tier)
-        gen = kit.run_tlc("C01_Gen", f"C01_Gen_{tier}", workers=10, heap="4g")
+        gen = gen_f.result()
         kit.require_clean(gen, "C01 model check along the generated histories")
         out.add_tlc(gen)
         cases = _cases_from(gen, 0)
         kit.log(f"C01: TLC generated {len(cases)} histories ({gen.distinct} states, {gen.wall:.1f}s)")
-        # -simulate num=N is per worker: 4 workers x N random walks
-        nsim = 75 if tier == "quick" else 2500
-        sim = kit.run_tlc("C01_Gen", "C01_Gen_sim", workers=4, heap="3g",
-                          simulate=f"num={nsim}", depth=14, seed=seed)
+        sim = sim_f.result()
         if "Error:" in sim.out:
             raise kit.MachineryError("C01 simulation run failed:\n" + "\n".join(sim.out.splitlines()[-25:]))
         simcases = _cases_from(sim, len(cases))
@@ -160,13 +223,18 @@ def run(tier, seed, out):
         kit.log(f"C01: drove {len(recs)} histories through pymbolic at {kit.REPO} ({time.time() - t1:.1f}s)")
         out.evaluations += sum(len(r["evs"]) for r in recs)
         t2 = time.time()
+        corr_f = ex.submit(_corruption_control, recs, wd)
         verdicts, st, tr = _judge(recs, wd, "c01")
         kit.log(f"C01: TLC judged {len(recs)} traces ({st} states, {time.time() - t2:.1f}s)")
         out.states += st
         out.transitions += tr
         out.traces += len(recs)
         nfail = _classify(recs, cases, verdicts, out)
+        corr, cerrs, st2, tr2 = corr_f.result()
+        out.states += st2
+        out.transitions += tr2
         side, errs = side_f.result()
+        errs += cerrs
     for name, d in side.items():
         out.add_tlc(d.pop("_res"))
     if errs:
@@ -179,16 +247,34 @@ def run(tier, seed, out):
                     "recorded": [{"k": e["r"]["k"], "b": e["r"]["b"], "h": e["r"]["h"], "exc": e["r"]["exc"],
                                   "v": e["r"]["v"], "proj": e["r"]["proj"]} for e in r["evs"]],
                     "trees": r["trees"]} for r in pick]
-    out.rule = ("TLC enumerates (C01_Gen) every unordered pair incl. a separately built twin inside each "
-                "of 19 catalogue families x every history of fixed length over the pair alphabet, "
-                "representative pairs/triples x every history over the full alphabet, plus seeded "
-                "-simulate histories of length 8; a case is one history (New events + operations); "
+    pairs_txt = ("every near pair (each catalogue member with its separately built twin, with its "
+                 "family's base instance and with its next two neighbours) x every history of length 2 "
+                 "over the pair alphabet {Eq12, Eq21, Hash2, Put1, Get2}; 14 representative pairs + 3 "
+                 "triples x every history of length 2 over the full alphabet (~33 operations)"
+                 if tier == "quick" else
+                 "every unordered pair inside each catalogue family x every history of length 2, every "
+                 "near pair x every history of length 3 over the pair alphabet; 24 representative pairs "
+                 "+ 8 triples x every history of length 2 over the full alphabet")
+    out.rule = ("TLC enumerates (C01_Gen over the 240-object catalogue in 19 families): " + pairs_txt +
+                "; plus seeded -simulate random walks of 8 operations from any family pair/triple. "
+                "A case is one history (New events + operations), replayed on fresh objects; "
                 "non-trivial = at least one operation after construction; distinct by canonical JSON "
-                "digest of the history")
+                "digest of the history. exhaustive refers to the enumerated sweeps (the random walks "
+                "come on top)")
     out.exhaustive = True
     out.extra["failing_verdicts"] = nfail
     out.extra["controls"] = {k: v for k, v in side.items()}
-    out.extra["sweeps"] = {s: sum(1 for c in cases if c["sweep"] == s) for s in ("pairs", "deep", "sim")}
+    out.extra["controls"]["trace_corruption"] = corr
+    ops, clss = {}, {}
+    for c in cases:
+        for e in c["hist"]:
+            key = e["op"] + (":" + e["md"] if e["md"] else "")
+            ops[key] = ops.get(key, 0) + 1
+            if e["op"] == "New":
+                clss[e["spec"]["cls"]] = clss.get(e["spec"]["cls"], 0) + 1
+    out.extra["events_by_operation"] = ops
+    out.extra["objects_by_class"] = clss
+    out.extra["sweeps"] = {s: sum(1 for c in cases if c["sweep"] == s) for s in ("pairs", "near", "deep", "deepq", "sim")}
     out.assumptions += [
         "CPython semantics of ==/hash on tuples, numbers, str, mappings as transcribed in C01_Values.tla",
         "default interpreter mode (__debug__ true); python -O is out of scope as the statement says",
